@@ -22,7 +22,8 @@ from harness.props import orchhist_common as oc
 from harness.props.c08 import measure_queries
 
 PROP = "C10"
-FLAGS = ["q_dry_keeps_storage", "q_lintfile_leaves_evidence", "q_consts_in_processing_order", "q_ignore_parser_reused", "q_api_file_no_finalize"]
+FLAGS = ["q_dry_keeps_storage", "q_lintfile_leaves_evidence", "q_consts_in_processing_order", "q_ignore_parser_reused", "q_api_file_no_finalize",
+         "q_dry_config_sticky", "q_fp_config_sticky"]
 HEADER = "From Coq Require Import NArith.\nFrom TL Require Import Lib.Base Model.OrchHist Model.OrchHistRun Actual.OrchHistActual.\n"
 # CLI command -> function holding its rule_id filter (Gen.cli_filters is keyed by function name)
 CMD_FN = {"dry": "_run_dry_lint", "stringly-typed": "_run_stringly_typed_lint", "nesting": "_run_nesting_lint",
@@ -255,8 +256,8 @@ def measure_proj(case: dict) -> dict:
     import yaml
     proj = json.loads(json.dumps(case["proj"]))
     name, text = CFG_VARIANTS[v]
-    proj["config"] = (json.loads(text) if name.endswith(".json") else yaml.safe_load(text)) or {}
-    proj["config"].setdefault("dry", {"enabled": False})
+    proj["_force_config"] = (json.loads(text) if name.endswith(".json") else yaml.safe_load(text)) or {}
+    proj["_force_config"].setdefault("dry", {"enabled": False})
     return proj
 
 
@@ -266,7 +267,9 @@ def measure6(job):
 
 # ------------------------------------------------------------------ Coq side
 def _ctx(case, impl) -> str:
-    return f"{oc.coq_nat_list(impl['hard'])} {oc.coq_ign(impl['ign'])} {case['proj']['paths'].index(oc.IGNORE_NAME)} {oc.coq_dirs(case['proj'])}"
+    paths = case["proj"]["paths"]
+    return (f"{oc.coq_nat_list(impl['hard'])} {oc.coq_ign(impl['ign'])} {paths.index(oc.IGNORE_NAME)} {paths.index(oc.CONFIG_NAME)} "
+            f"{oc.coq_dirs(case['proj'])}")
 
 
 def _dirs(impl) -> str:
@@ -286,7 +289,7 @@ def phase_queries(cases, impls, wd: Path, per_shard=16, th=None):
         for enc in q:
             if tuple(enc) not in seen:
                 seen.add(tuple(enc))
-                lst.append((enc[0], enc[1], [(enc[i], enc[i + 1]) for i in range(2, len(enc), 2)]))
+                lst.append((enc[0], enc[1], enc[2], [(enc[i], enc[i + 1]) for i in range(3, len(enc), 2)]))
         res.append(lst)
     return res
 
@@ -295,12 +298,20 @@ def phase_judge(cases, impls, queries, measured, wd: Path, per_shard=10, th=None
     lines = []
     for case, impl, qs, ms in zip(cases, impls, queries, measured):
         ids = oc.Ids()
-        pf_tbl = "[" + "; ".join(f"({p}, {coq.coq_option(c)}, {oc.coq_N_list(ids.many(vs))})" for p, c, vs in impl["pf"]) + "]"
+        cfg_cid = int(case["proj"]["fs0"][str(case["proj"]["paths"].index(oc.CONFIG_NAME))])
+
+        def ver(c):
+            return None if c is None else oc.enc_version(c, cfg_cid)
+
+        def split(vs, fp):
+            return [v for v in vs if str(v[0]).startswith("file-placement") == fp]
+        pf_tbl = "[" + "; ".join(f"({p}, {coq.coq_option(ver(c))}, {oc.coq_N_list(ids.many(split(vs, False)))})" for p, c, vs in impl["pf"]) + "]"
+        pf_tbl += " [" + "; ".join(f"({p}, {coq.coq_option(ver(c))}, {oc.coq_N_list(ids.many(split(vs, True)))})" for p, c, vs in impl["pf"]) + "]"
         rows, cross = [], set()
-        for (kind, npend, ev), m in zip(qs, ms):
+        for (kind, npend, rkey, ev), m in zip(qs, ms):
             if isinstance(m, dict):
                 continue
-            key = [kind, npend] + [x for pc in ev for x in pc]
+            key = [kind, npend, rkey] + [x for pc in ev for x in pc]
             nums = ids.many(m)
             cross.update(nums)
             rows.append(f"({oc.coq_nat_list(key)}, {oc.coq_N_list(nums)})")
